@@ -70,7 +70,7 @@ def gen_powers(rng, rated, curve):
 
 
 def gen_case(rng, idx):
-    kind = str(rng.choice(["basic", "gearbox", "machine", "serial", "pti_pto", "storage"], p=[0.25, 0.1, 0.2, 0.2, 0.1, 0.15]))
+    kind = str(rng.choice(["basic", "gearbox", "machine", "serial", "pti_pto", "storage", "dc_genset"], p=[0.23, 0.1, 0.18, 0.18, 0.1, 0.13, 0.08]))
     rated = float(rng.choice([100.0, 1000.0, 2500.0, float(np.round(rng.uniform(50, 5000), 1))]))
     case = {"idx": idx, "kind": kind, "rated": rated}
     if kind in ("basic", "gearbox", "machine"):
@@ -99,6 +99,17 @@ def gen_case(rng, idx):
         case["equal_ratings"] = bool(equal)
         case["powers"] = [0.0, 0.3 * rated, -0.3 * rated, float(np.round(rng.uniform(0.05, 0.9) * rated, 2)),
                           -float(np.round(rng.uniform(0.05, 0.9) * rated, 2))]
+    elif kind == "dc_genset":
+        # a generator behind a rectifier is a two-stage train too (Genset builds it); the rectifier is often rated above its generator
+        for _ in range(200):
+            rr = float(np.round(rated * float(rng.choice([1.0, 0.8, 1.2, 1.4, 2.0])), 0))
+            case["generator"] = {"rated": rated, "speed": 1000.0, "curve": comps.gen_accepted_curve(rng, rated, lo=0.85)}
+            case["rectifier"] = {"rated": rr, "curve": comps.gen_accepted_curve(rng, rr, lo=0.9)}
+            try:
+                build(case)
+                break
+            except Exception:
+                continue
     else:
         case["spec"] = comps.gen_storage_spec(rng)
         lim = case["spec"]["converter"]["rated"] if "converter" in case["spec"] else case["spec"]["rated"]
@@ -130,6 +141,9 @@ def build(case):
     if k in ("serial", "pti_pto"):
         spec = {"kind": "drive" if k == "serial" else "pti_pto", "name": "train", "swb": 1, "rated": rated, "stages": case["stages"]}
         return plants.build_electric_component(spec)
+    if k == "dc_genset":
+        return plants.build_electric_component({"kind": "genset", "name": "dcg", "swb": 1, "rated": rated, "generator": case["generator"],
+                                                "rectifier": case["rectifier"], "engine": {"rated": 1.2 * rated, "speed": 1000.0, "bsfc": [200.0]}})
     return comps.make_storage(case["spec"])
 
 
@@ -357,6 +371,25 @@ def run_case(ctx, case, model=True):
                              f"role {role}: electric {p} -> shaft {s} -> electric {e2}", where)
             except Exception:
                 pass
+    elif k == "dc_genset":
+        # the machine the generating set works with is the train generator + rectifier: at the sampled loads its efficiency is the
+        # product of the two, each at its own load, and the shaft power for a delivered power follows from it
+        g0 = plants.build_machine(case["generator"], TypePower.POWER_SOURCE, 1)
+        r0 = plants.build_basic(dict(case["rectifier"], type="RECTIFIER"), 1, TypePower.POWER_SOURCE, "r")
+        rg, rr = case["generator"]["rated"], case["rectifier"]["rated"]
+        for kx in range(1, 11):
+            pw = kx / 10.0 * rg
+            want = min(max(float(g0.get_efficiency_from_load_percentage(pw / rg)) * float(r0.get_efficiency_from_load_percentage(pw / rr)), 0.01), 1.0)
+            shaft = float(np.asarray(comp.generator.get_power_input_from_bidirectional_output(pw)[0]))
+            if abs(shaft * want - pw) > 1e-7 * rg:
+                ctx.fail("predicate", "generator-with-rectifier-not-product-of-stages",
+                         f"delivering {pw} kW takes {shaft} kW at the shaft, efficiency {pw / shaft} != {want} (ratings {rg}, {rr})", where)
+                break
+            fuel_side = comp.get_fuel_cons_load_bsfc_from_power_out_generator_kw(np.array([pw]))
+            load = float(np.asarray(fuel_side.engine.load_ratio).reshape(-1)[0])
+            if abs(load * 1.2 * rg * want - pw) > 1e-7 * rg:
+                ctx.fail("predicate", "generator-with-rectifier-not-product-of-stages", f"engine load {load} for {pw} kW delivered (efficiency {want}, engine {1.2 * rg} kW)", where)
+                break
     elif k in ("serial", "pti_pto"):
         stages = comp.components
         for st_obj, st_spec in zip(stages, case["stages"]):
